@@ -123,6 +123,10 @@ class StmtMixin(object):
                     for st2, b in self.branch(st1, cls[v.term] == self.world.cid(n)):
                         if b:
                             yield st2, ('raise', ExcVal(self.world.classes[n], [], addr=v.term, node=s))
+            elif not v.is_py and v.ty.kind == 'any' and 'DynamicException' in self.world.classes:
+                # raising a dynamically typed value (an exception object kept in a list of anything): its class is not
+                # tracked - reported under the pseudo-class DynamicException, which a contract must declare by name
+                yield st1, ('raise', ExcVal(self.world.classes['DynamicException'], [], node=s))
             else:
                 raise OutOfReach('raise of %r' % (v,))
 
